@@ -175,6 +175,37 @@ def run(case, j):
             pa, pb = np.asarray(est.predict(X)), np.asarray(est.predict(T=T))
             j.close("after a refused refit: predict(X) == predict(T=transform(X)) still", pa, pb.reshape(pa.shape), tol * max(float(np.abs(pa).max()), 1e-300) * 10)
             j.note("uses_after_a_refused_refit")
+    if case["pseed"] % 6 == 0:
+        # ---- an orthogonal design (two-level factorial: mutually orthogonal columns of equal norm), so that the
+        # modified Gram matrix has an exactly repeated eigenvalue: which basis of the tied space is kept is open, but
+        # with the full solver it is the same for every k (one decomposition, truncated), so on the SAME arrays and
+        # the same configuration the losses still never increase with k
+        import itertools
+
+        from sklearn.linear_model import Ridge as _Ridge
+
+        from skmatter.decomposition import PCovR as _PCovR
+
+        zr = np.random.default_rng(case["pseed"])
+        Fd = np.array(list(itertools.product([-1.0, 1.0], repeat=4)))
+        Xd = np.c_[Fd, Fd[:, 0] * Fd[:, 1], Fd[:, 2] * Fd[:, 3], Fd[:, 0] * Fd[:, 2]][:, zr.permutation(7)[: int(zr.integers(4, 8))]]
+        bd = np.zeros((Xd.shape[1], 2))
+        bd[zr.permutation(Xd.shape[1])[:3], 0] = [2.0, -1.0, 0.5]
+        bd[zr.permutation(Xd.shape[1])[:3], 1] = [1.0, 1.0, -2.0]
+        Yd = Xd @ bd + 0.2 * zr.normal(size=(16, 2))
+        Yd = Yd - Yd.mean(axis=0)
+        for sp_ in ("sample", "feature"):
+            a_ = float((1.0, 0.5, 0.8)[case["pseed"] // 6 % 3])
+            prev = None
+            for kk_ in range(1, Xd.shape[1] + 1):
+                e_ = _PCovR(mixing=a_, n_components=kk_, space=sp_, svd_solver="full", regressor=_Ridge(alpha=1e-6, fit_intercept=False))
+                j.lib(f"fit:orthogonal design k={kk_}", e_.fit, Xd, Yd)
+                cur = _losses(e_, Xd, Yd)
+                if prev is not None:
+                    j.ok("orthogonal design (tied eigenvalues): training reconstruction loss does not increase with k", cur[0] <= prev[0] + 1e-9, {"k": kk_, "space": sp_, "mixing": a_, "losses": (prev, cur)})
+                    j.ok("orthogonal design (tied eigenvalues): training regression loss does not increase with k", cur[1] <= prev[1] + 1e-9 * max(1.0, prev[1]), {"k": kk_, "space": sp_, "mixing": a_, "losses": (prev, cur)})
+                prev = cur
+        j.note("orthogonal_designs_with_tied_eigenvalues")
     if two:
         e1, e2 = ests[k], ests[k + 1]
         T1, T2 = e1.transform(X), e2.transform(X)
